@@ -46,8 +46,12 @@ def sink_guarded(fx, rep):
         return None
     g = fc.cmp_guards(nonneg)
     ok = bool(casts) and bool(g) and all(fc.only_through([bb], g) for bb, s in casts)
-    clamp = b.calls_any("Ord::max", "i32::max", "core::cmp::max")
-    return (ok or clamp or not casts), b
+    # a negative Duration is normalised as (negative sec, positive nanosec): clamping sec alone turns -8.0003 s into 0.9997 s.
+    # The whole value must be replaced (ZERO) on the negative side, i.e. the nanosec operand is also used only behind the sign guard
+    news = [bb for bb, t in fc.mir.calls() if not t.callee.indirect and t.callee.method() == "new" and "time::Duration" in (t.callee.best_name() or "")
+            and any(E.mentions_field(fc.arg(t, i), "nanosec") for i in range(len(t.args)))]
+    ok = ok and bool(news) and all(fc.only_through([bb], g) for bb in news)
+    return (ok or not casts), b
 
 
 def classify(fx, b):
@@ -139,3 +143,9 @@ def run(ctx, rep):
                 if blocks and any(b in m.reachable(some) for b in blocks):
                     add("R31c", "%s runs for every participant on every iteration" % d, hb not in m.reachable(some, removed_blocks=blocks),
                         "a path through the per-participant body skips %s" % d)
+    # R27e (shared with C27): the Timeout a blocked write waits for is armed at local now + max_blocking_time, so the worker's
+    # time_until_pending_writer_sample_timeout bounds the reply by max_blocking_time plus one poke period
+    from rules.c27 import check_blocked
+    wb = fx.fn("DcpsDomainParticipant", "write_w_timestamp")
+    k = check_blocked(fx, wb, adder(rep, wb))
+    rep.floor("R27e", k, 1, "PendingWriteSample constructions")
